@@ -377,7 +377,25 @@ func runC07(c *Ctx) {
 				c.Check(okShape, "C07.4-presence", FuncName(find)+"|has is membership, not a head value", p.Pos(find.Pos()), "the 'present' verdict comes from map membership / id equality (an element with an empty head is still present)")
 			}
 		}
-		c.Min("C07.4-presence", 3)
+		// a find helper inlined into the comparing function tests membership directly: each of
+		// the two functions must decide presence by a find helper or a comma-ok map lookup of its own
+		for _, fn := range []*ssa.Function{cmpEq, cmpGt} {
+			n := 0
+			for _, f := range regionFuncs(fn) {
+				if f != fn && f.Signature.Results().Len() >= 2 {
+					n++ // a find helper, decided above
+				}
+			}
+			Instrs(fn, func(in ssa.Instruction) {
+				if lk, ok := in.(*ssa.Lookup); ok && lk.CommaOk {
+					if _, isMap := lk.X.Type().Underlying().(*types.Map); isMap {
+						n++
+					}
+				}
+			})
+			c.Check(n > 0, "C07.4-presence", FuncName(fn)+"|presence is tested", p.Pos(fn.Pos()), fmt.Sprintf("%d membership test(s) (find helper / comma-ok lookup) decide which ids are missing on the other side", n))
+		}
+		c.Min("C07.4-presence", 2)
 		dirtyMarkSurvives(c, "C07.4-hash-freshness", p.Func(ldPkg+":(*hashRanges).addElement"))
 		dirtyMarkSurvives(c, "C07.4-hash-freshness", p.Func(ldPkg+":(*hashRanges).removeElement"))
 	}
